@@ -107,8 +107,9 @@ def finish(prop, tier, seed, t0, ctx, explanation, rule_texts, min_counts, trust
     new = [i for i in viol if i.key not in known]
     listed = [i for i in viol if i.key in known]
     holds = [i for i in ctx.insts if i.verdict == "holds"]
-    os.makedirs(os.path.join(VERIF, "evidence"), exist_ok=True)
-    os.makedirs(os.path.join(VERIF, "violations"), exist_ok=True)
+    OUT = os.environ.get("VERIF_OUT_DIR", VERIF)   # selftests redirect evidence/replay files of scratch runs
+    os.makedirs(os.path.join(OUT, "evidence"), exist_ok=True)
+    os.makedirs(os.path.join(OUT, "violations"), exist_ok=True)
     distinct = len({i.key for i in ctx.insts})
     per_rule = {}
     for i in ctx.insts:
@@ -144,7 +145,7 @@ def finish(prop, tier, seed, t0, ctx, explanation, rule_texts, min_counts, trust
         "property_id": prop, "tier": tier, "seed": seed, "level": "other", "coverage": cov,
         "assumptions": trusted, "wall_s": round(time.time() - t0, 3), "violations": len(new),
     }
-    with open(os.path.join(VERIF, "evidence", f"{prop}.json"), "w") as f:
+    with open(os.path.join(OUT, "evidence", f"{prop}.json"), "w") as f:
         json.dump(ev, f, indent=1, default=str)
     print(f"[{prop}] tier={tier} instances={len(ctx.insts)} holds={len(holds)} violated={len(viol)} "
           f"(known={len(listed)}) functions={len(ctx.functions)} wall={ev['wall_s']}s")
@@ -153,7 +154,7 @@ def finish(prop, tier, seed, t0, ctx, explanation, rule_texts, min_counts, trust
     for i in listed:
         print(f"KNOWN-FINDING: property={prop} {i.key} -- {known[i.key].get('what', i.detail)}")
     if new:
-        path = os.path.join(VERIF, "violations", f"{prop}.json")
+        path = os.path.join(OUT, "violations", f"{prop}.json")
         with open(path, "w") as f:
             json.dump({"property": prop, "repo_root": ctx.R.root, "source_digest": ctx.R.digest(),
                        "violations": [i.as_dict() for i in new]}, f, indent=1, default=str)
